@@ -13,3 +13,5 @@ package envelope
 //@ props C07 C18
 //@ ensures[C07.payload-exact] result == ocispec.Descriptor{MediaType: targetArtifact.MediaType, Digest: targetArtifact.Digest, Size: targetArtifact.Size, Annotations: targetArtifact.Annotations}
 //@ ensures[C07.payload,C18.payload] result.MediaType == targetArtifact.MediaType && result.Digest == targetArtifact.Digest && result.Size == targetArtifact.Size && result.Annotations == targetArtifact.Annotations && len(result.URLs) == 0 && len(result.Data) == 0 && result.Platform == nil && result.ArtifactType == ""
+
+//@ type-methods[C01.plain-decode,C07.plain-decode,C18.plain-decode] internal/envelope.Payload:
